@@ -34,6 +34,12 @@ for sid in ids:
         results[sid] = {"property": prop, "applied": True, "caught": bool(lines), "exit": r.returncode, "tier": tier,
                         "violation_lines": lines[:3], "why": [w[:300] for w in why], "wall_s": round(time.time() - t0, 1)}
         print("%-10s %-4s %s  (%.0fs) %s" % (sid, prop, "CAUGHT" if lines else "missed", time.time() - t0, (why[0][:140] if why else "")))
+        meta.setdefault("id", sid)
+        meta["ran"] = ("seeding agent: with patch.diff applied `go build ./... && go test -vet=off -count=1 ./...` passes and demo_test.go fails; without it the demo passes. "
+                       "coordinator: git -C /repo apply patch.diff; ./check %s --tier %s; git -C /repo checkout -- ." % (prop, tier))
+        meta["caught_by_check"] = bool(lines)
+        meta["caught_by"] = [w.split("] ", 1)[-1][:220] for w in why]
+        json.dump(meta, open(os.path.join(d, "meta.json"), "w"), indent=1)
     finally:
         sh(["git", "-C", "/repo", "reset", "-q"])
         sh(["git", "-C", "/repo", "checkout", "--", "."])
